@@ -13,6 +13,7 @@ import Fx.Lemmas.PegFuel
 import Fx.Lemmas.WalkTotal
 import Fx.Lemmas.EmitTotal
 import Fx.Lemmas.ParsePlain
+import Fx.Lemmas.PegLimit
 namespace Fx.C14
 open Fx
 
@@ -121,7 +122,7 @@ theorem C14_generic_loop_terminates (gs : List GItem) : gpass gs (genericIndexOf
     exact ih (fun it hit => step_fix it (List.mem_cons_of_mem _ hit))
 
 /-- the grammar translated from `src/xdr.pest` (regenerated on every run) has no recursion among its rules -/
-theorem xdr_grammar_is_dag : Peg.dag Grammar.xdr = true := by decide
+theorem xdr_grammar_is_dag : Peg.dag Grammar.xdr = true := Fx.xdr_grammar_is_dag
 
 /-- **C14 (the parser terminates).**  For every bound on the length of the text there is one recursion budget from which on the
     model of pest's parser, run on the grammar of `src/xdr.pest` from any start rule, answers (accepts or rejects) on every text
@@ -192,6 +193,31 @@ theorem C14_plain_text (s : Parse.Spec) (hok : s.ok = true) (hp : s.plain = true
     · exact .inr (.inl ⟨a, by simp only [ha]⟩)
     · exact .inr (.inr (by simp only [hd]))
   · exact .inl (by rw [show Peg.parseWith Grammar.xdr "item" s.text = _ from hpw])
+
+
+/-- **the front end is total, with no budget in the statement.**  `Ast.newLim` runs the constructors on the parser's
+    budget-free answer (Lemmas/PegLimit).  For EVERY text it is `Ok`, `Err`, or a panic at one of the recorded sites — there
+    is no fourth outcome — and the executable `Ast.new` equals it at every text where `Ast.new` answers. -/
+theorem C14_front_end_total (txt : String) :
+    (∃ a, Ast.newLim txt = .ok a) ∨ Ast.newLim txt = .err ∨ (∃ f m, Ast.newLim txt = .panicAt f m ∧ (f, m) ∈ knownSites) := by
+  cases h : Ast.newLim txt with
+  | ok a => exact Or.inl ⟨a, rfl⟩
+  | err => exact Or.inr (Or.inl rfl)
+  | panicAt f m => exact Or.inr (Or.inr ⟨f, m, rfl, Ast.newLim_known_panics txt f m h⟩)
+  | outOfFuel => exact absurd h (Ast.newLim_ne_outOfFuel txt)
+
+theorem C14_executable_front_end_agrees (txt : String) (h : Ast.new txt ≠ .outOfFuel) : Ast.new txt = Ast.newLim txt :=
+  Ast.new_eq_newLim txt h
+
+/-- `C14_plain_text` without a budget: a plain well-formed text is `Ok` or the duplicate-name panic K6.d -/
+theorem C14_plain_text_total (s : Parse.Spec) (hok : s.ok = true) (hp : s.plain = true) :
+    (∃ a, Ast.newLim (String.ofList s.text) = .ok a) ∨
+    Ast.newLim (String.ofList s.text) = .panicAt "constants.rs" "duplicate case keys" := by
+  unfold Ast.newLim
+  rw [String.toList_ofList, Peg.parseLim_of_ROk (Parse.spec_parses s hok)]
+  rcases Parse.plain_front s hok hp with ⟨a, ha⟩ | hd
+  · exact .inl ⟨a, by simp only [ha]⟩
+  · exact .inr (by simp only [hd])
 
 /-- non-vacuity: a plain specification with a fall-through union, an optional field and a counted array -/
 def exP : Parse.Spec :=
